@@ -312,6 +312,10 @@ func init() {
 						o.Fail = fmt.Sprintf("step %d: nil/empty must be rejected and only those", i)
 					case err == nil && !bytes.Equal(out, in):
 						o.Fail = fmt.Sprintf("step %d: payload not returned unchanged", i)
+					case err == nil && !bytes.Equal(d.Payload, in):
+						// "a reused receiver gives the same result and metadata as a fresh one": the Payload field of a
+						// fresh receiver is this payload
+						o.Fail = fmt.Sprintf("step %d: the receiver's Payload field holds %x after decoding %x", i, d.Payload, in)
 					case !head || !tail0 || !tail1 || !headP || !tailP:
 						o.Fail = fmt.Sprintf("step %d: partition head/tail not reported (head=%v tail=%v/%v, on another payload %v/%v)", i, head, tail0, tail1, headP, tailP)
 					}
@@ -404,6 +408,15 @@ func init() {
 				}
 				if !bytes.Equal(cat, in) {
 					o.Fail = "fragments do not concatenate to the input"
+				}
+				if currentProp != "C16" && len(in) > 0 {
+					// C08: "non-empty whenever the input is non-empty" (C16 does not ask it: an empty last fragment
+					// still concatenates to the input)
+					for i, f := range frags {
+						if len(f) == 0 {
+							o.Fail = fmt.Sprintf("fragment %d of %d is empty", i, len(frags))
+						}
+					}
 				}
 				o.Nontrivial = len(frags) >= 2
 			}
